@@ -113,8 +113,16 @@ func callOf(v ssa.Value, name string) (*ssa.Call, bool) {
 
 func tableDispatchCfg() *PathCfg {
 	return &PathCfg{
-		Classify: func(in ssa.Instruction) []string {
+		ClassifyV: func(in ssa.Instruction, resolve func(ssa.Value) ssa.Value) []string {
 			if f, ok := counterField(in); ok {
+				if f == "?" {
+					// a counter handed to a helper (reject(key, buf, err, table.numInvalid)): the field the caller passed
+					if cc := callCommon(in); cc != nil {
+						if _, fld, ok := fieldLoad(resolve(cc.Value)); ok {
+							f = fld.Name()
+						}
+					}
+				}
 				return []string{"inc:" + f}
 			}
 			cc := callCommon(in)
@@ -238,3 +246,56 @@ func hasAny(evs []Event, classes ...string) (string, bool) {
 }
 
 var forwardClasses = []string{"addmaybe", "route.dispatch", "send", "go"}
+
+// badAddCall: one execution site of bad.Add as seen from the dispatcher function: the instruction to
+// report and the three arguments with helper parameters replaced by what the dispatcher passes.
+type badAddCall struct {
+	at   ssa.Instruction
+	args []ssa.Value
+}
+
+// badAddSites: the bad.Add calls of fn, and those of the helper methods of the same type that fn calls
+// (reject(key, buf, err, counter)), one entry per call site of the helper in fn.
+func badAddSites(p *Prog, fn *ssa.Function) []badAddCall {
+	var out []badAddCall
+	allInstrs(fn, func(in ssa.Instruction) {
+		if isCallNamed(in, nBadAdd) {
+			out = append(out, badAddCall{in, argsOf(callCommon(in))})
+		}
+	})
+	for _, g := range workerFuncs(p, fn) {
+		if g == fn || g.Parent() != nil {
+			continue
+		}
+		var inner []ssa.Instruction
+		allInstrs(g, func(in ssa.Instruction) {
+			if isCallNamed(in, nBadAdd) {
+				inner = append(inner, in)
+			}
+		})
+		if len(inner) == 0 {
+			continue
+		}
+		allInstrs(fn, func(in ssa.Instruction) {
+			call, ok := in.(*ssa.Call)
+			if !ok || call.Call.StaticCallee() != g {
+				return
+			}
+			for _, ba := range inner {
+				var args []ssa.Value
+				for _, a := range argsOf(callCommon(ba)) {
+					if par, ok := a.(*ssa.Parameter); ok {
+						for i, q := range g.Params {
+							if q == par && i < len(call.Call.Args) {
+								a = call.Call.Args[i]
+							}
+						}
+					}
+					args = append(args, a)
+				}
+				out = append(out, badAddCall{in, args})
+			}
+		})
+	}
+	return out
+}
